@@ -11,7 +11,7 @@ entry lists and all their permutations:
 * the library (`NA.PermFold`): `foldl_perm`, `sort_perm`, `find?_perm_invariant_iff`,
   `findSome?_perm_invariant_iff`;
 * one theorem `site_…` per `range`-over-map loop of go/pkg/... (site models of
-  `NA.Model.MapSites`), and `every_site_has_proof`: every site of the list **regenerated from
+  `NA.Model.MapSites`), and `every_site_hash_tied_to_shape`: every site of the list **regenerated from
   the source** (`NA.Gen.MapRanges.sites`: file, function, map expression, hash of the loop
   text, syntactic class) is matched by a line of `expected` whose shape theorem holds — a new
   loop or a changed loop body has no proof and the build fails;
@@ -146,6 +146,11 @@ theorem site_normalizeIPTables {κ ν : Type} [DecidableEq κ] (norm : κ → ν
     es₁.foldl (Site.normalizeIPTables norm).step s = es₂.foldl (Site.normalizeIPTables norm).step s :=
   ownKey_perm _ hm p s
 
+theorem site_dropUnmanagedUsers {κ ν : Type} [DecidableEq κ] (managed : ν → Bool)
+    {es₁ es₂ : Entries κ ν} (hm : IsMap es₁) (p : es₁.Perm es₂) (s : κ → Option ν) :
+    es₁.foldl (Site.dropUnmanagedUsers managed).step s = es₂.foldl (Site.dropUnmanagedUsers managed).step s :=
+  ownKey_perm _ hm p s
+
 theorem site_copyKeys {κ ν : Type} [DecidableEq κ] {es₁ es₂ : Entries κ ν}
     (hm : IsMap es₁) (p : es₁.Perm es₂) (s : κ → Bool) :
     es₁.foldl (Site.copyKeys (ν := ν)).step s = es₂.foldl (Site.copyKeys (ν := ν)).step s :=
@@ -212,7 +217,7 @@ def uncovered : List Site :=
 -- Diagnostic only (the theorem below is what counts): name the loops that have no proof.
 #eval (do
   unless uncovered.isEmpty do
-    throw (IO.userError ("C16: range-over-map loops with no matching proof (new loop or changed loop text): " ++
+    throw (IO.userError ("C16: range-over-map loops that match no line of `expected` (new loop or changed loop text; hash tie): " ++
       toString (uncovered.map fun s => s!"{s.file} {s.fn} range {s.mapExpr} #{s.ord} hash={s.hash} class={s.cls}")))
   let lost := repaired.filter (fun r => !sortedRanges.contains r)
   unless lost.isEmpty do
@@ -226,9 +231,14 @@ theorem sites_covered :
     sites.all (fun s => expected.any (fun e =>
       e.matchesSite s.file s.fn s.mapExpr s.ord s.hash s.cls)) = true := by decide
 
-/-- Every loop over a map in the source has a model of a shape that is proved insensitive to
-the iteration order. -/
-theorem every_site_has_proof :
+/-- **Hash tie.** Every `range` over a map found in the source matches a line of the hand-written
+table `expected`: same file, function, map expression, ordinal, **same hash of the loop text**, same
+syntactic class; and the shape named in that line is one for which the generic order-insensitivity
+statement `ShapeHolds` is a theorem (`shape_holds` — true of every shape, so the content of this
+statement is the hash equality: the assignment of a shape to a site is by hand and is checked
+against the source only through the hash, and — since round 3 — through the descriptor read off the
+source: `descr_agrees_with_shape`, `drc_planning_deterministic` in Props/C16Run.lean). -/
+theorem every_site_hash_tied_to_shape :
     ∀ s, s ∈ sites → ∃ e, e ∈ expected ∧
       e.matchesSite s.file s.fn s.mapExpr s.ord s.hash s.cls = true ∧ ShapeHolds e.shape := by
   intro s hs
@@ -244,10 +254,12 @@ theorem no_loose_iterators : looseIters = [] := by decide
 
 /-! ## Whole runs -/
 
-/-- **Determinism of a run.** If every loop over a map that the program executes is insensitive
-to the visiting order (the site theorems), then the final state — change script, messages, exit
-status — is the same for every two schedules, i.e. for every way the Go runtime may order the
-map iterations of two runs on the same input. -/
+/-- **Schedule independence of a run, given order-insensitive stages.** Conditional statement: a
+`Stage` carries the order-insensitivity of its loop as the field `inv`; IF every loop the program
+executes is such a stage, the final state is the same for every two schedules. The field is
+discharged for the loops of the repository in Props/C16Run.lean (`stageOf`,
+`drc_planning_deterministic`): proved for the described sites, an explicit hypothesis for the
+three hash-tied ones. -/
 theorem run_schedule_independent {σ ε : Type} (next : σ → Option (Stage σ ε))
     (sch₁ sch₂ : Schedule σ ε) (h₁ : sch₁.Valid) (h₂ : sch₂.Valid) (fuel i : Nat) (s : σ) :
     execRun next sch₁ fuel i s = execRun next sch₂ fuel i s := by
@@ -428,13 +440,13 @@ def obligations : List Lean.Name := [
   ``NA.PermFold.foldl_perm, ``NA.PermFold.sort_perm, ``NA.PermFold.sortBy_perm,
   ``findFirst_invariant_iff, ``firstResult_invariant_iff,
   ``NA.PermFold.strLe_lawful,
-  ``run_schedule_independent, ``sites_covered, ``every_site_has_proof, ``shape_holds, ``repaired_stay_sorted, ``no_loose_iterators,
+  ``run_schedule_independent, ``sites_covered, ``every_site_hash_tied_to_shape, ``shape_holds, ``repaired_stay_sorted, ``no_loose_iterators,
   ``anchor_table_agrees, ``default_vals_parse,
   ``site_isValidOutput, ``site_mergeSpocMakeMaps, ``site_mergeSpocWarnings, ``site_anchorProbe,
   ``site_onlyAnchorNames, ``site_posAfterAdd, ``site_posAfterDel, ``site_deleteUnusedCollect,
   ``site_deleteStillReferenced, ``site_markReferenced, ``site_generateNames, ``site_sortGroups,
   ``site_ignoreCryptoGDOI, ``site_addDefaults, ``site_rewriteCommands, ``site_rewriteAndSetTypeRef,
-  ``site_normalizeIPTables, ``site_copyKeys, ``site_loadDefaults,
+  ``site_normalizeIPTables, ``site_copyKeys, ``site_dropUnmanagedUsers, ``site_loadDefaults,
   ``findGroup_unfixed_counterexample, ``findGroup_unfixed_partial, ``findGroup_fixed_deterministic,
   ``findGroup_fixed_least,
   ``peerMap_unfixed_counterexample, ``peerMap_unfixed_abort_counterexample, ``peerMap_unfixed_partial,
